@@ -73,6 +73,7 @@ pub fn one_case(r: &mut Rng, silent: &Arc<Mutex<Option<String>>>, debug: bool) -
     let mut events = String::new();
     let mut jsched = String::new();
     let mut owed = false;
+    let mut stored_head = false;
     let mut lost = false;
     let mut oracle: Option<String> = None;
     let mut first_pstate_step = vec![true; n_wakers + 1];
@@ -94,7 +95,11 @@ pub fn one_case(r: &mut Rng, silent: &Arc<Mutex<Option<String>>>, debug: bool) -
         } else if *t == 0 {
             events.push('P');
             if *p == 6 {
-                owed = false; // the poll returns after storing the head
+                stored_head = true;
+            } else if *p == 3 && stored_head {
+                // wake_blocked_futures at the end of the poll: the poll returns after this step
+                stored_head = false;
+                owed = false;
             }
         } else {
             let _ = write!(events, "W {}%nat", t - 1);
